@@ -172,7 +172,14 @@ def run_unit(unit, tier):
             if "abort-fallback" not in exc_seen:
                 exc_seen.add("abort-fallback")
                 try:
-                    for vals in path_models(unit, p, ex):
+                    cand = list(path_models(unit, p, ex))
+                    # boundary points of the input domain (unit.stress["points"]): concrete overrides of a path model
+                    if cand and unit.stress:
+                        for pt in unit.stress.get("points", []):
+                            sv_ = dict(cand[0])
+                            sv_.update(pt)
+                            cand.append(sv_)
+                    for vals in cand:
                         if unit.replay is not None:
                             # the unit's own replay knows how to re-position tolerances etc.; "*" = any assertion
                             with contextlib.redirect_stdout(io.StringIO()):
@@ -237,9 +244,12 @@ def run_unit(unit, tier):
                 res["fidelity"]["validated"] += 1
                 res["fidelity"]["assertions_evaluated"] += len(cc.passed)
                 if unit.stress:
-                    for factor_set in unit.stress.get("scales", []):
+                    variants = [("scale", fs) for fs in unit.stress.get("scales", [])] + [("point", pt) for pt in unit.stress.get("points", [])]
+                    for vkind, factor_set in variants:
                         sv = dict(vals)
-                        for k_, v_ in vals.items():
+                        if vkind == "point":
+                            sv.update(factor_set)          # a boundary point of the input domain
+                        for k_, v_ in (vals.items() if vkind == "scale" else ()):
                             for pref, fac in factor_set.items():
                                 if k_.startswith(pref) and isinstance(v_, (int, float)) and not k_.startswith(("uf", "watch")):
                                     sv[k_] = type(v_)(v_ * fac) if isinstance(v_, float) else float(v_ * fac)
@@ -250,8 +260,8 @@ def run_unit(unit, tier):
                             continue
                         res["fidelity"]["stress_points"] = res["fidelity"].get("stress_points", 0) + 1
                         if cs.failed:
-                            res["violations"].append({"unit": unit.name, "label": cs.failed[0] + " [float stress point]", "kind": "assertion", "path": p.index,
-                                                      "values": sv, "replay": {"reproduced": True, "how": "concrete run of the real code at an extreme but valid input (inputs %s scaled); outside the solver's real-arithmetic claim, a failing input nonetheless" % factor_set,
+                            res["violations"].append({"unit": unit.name, "label": cs.failed[0] + (" [float stress point]" if vkind == "scale" else " [boundary point]"), "kind": "assertion", "path": p.index,
+                                                      "values": sv, "replay": {"reproduced": True, "how": "concrete run of the real code at an extreme but valid input (%s %s); outside the solver's bounded real-arithmetic claim, a failing input nonetheless" % ("inputs scaled by" if vkind == "scale" else "boundary point", factor_set),
                                                                                "info": {"failed": cs.failed[:5]}}})
                             break
             elif cc.failed:
@@ -423,8 +433,7 @@ def run_check(check, tier, seed, jobs=None, only=None):
         # fork workers inherit the unit list; pass indices
         global _UNITS, _TIER
         _UNITS, _TIER = units, tier
-        with mp.Pool(jobs) as pool:
-            results = pool.map(_worker, range(len(units)), chunksize=1)
+        results = _run_parallel(mp, units, tier, jobs)
     else:
         for u in units:
             results.append(run_unit(u, tier))
@@ -556,6 +565,68 @@ def run_check(check, tier, seed, jobs=None, only=None):
 
 
 _UNITS, _TIER = None, None
+
+
+def _empty_result(u, label, kind):
+    return {"unit": u.name, "bounds": u.bounds, "program": u.program, "n_programs": 0,
+            "summary": {"paths": 0, "queries": 0, "queries_unsat": 0, "solver_time_s": 0.0, "queries_nontrivial": 0, "queries_by_ring_tactic": 0},
+            "violations": [], "functions": {}, "reach": {}, "witnesses": {}, "samples": [], "undecided_optional": [], "fidelity": {},
+            "theory": {"side_queries": 0, "instances": 0, "secs": 0.0}, "wall_s": 0.0,
+            "inconclusive": [{"unit": u.name, "label": label, "kind": kind}]}
+
+
+def _child(i, conn):
+    try:
+        conn.send(_worker(i))
+    except BaseException as e:      # noqa
+        try:
+            conn.send(_empty_result(_UNITS[i], "harness error: %r" % (e,), "harness-error"))
+        except BaseException:
+            pass
+    finally:
+        conn.close()
+
+
+def _run_parallel(mp, units, tier, jobs):
+    """one forked process per unit, at most `jobs` at a time, each under a HARD wall-clock limit (the unit's own
+    budget stops the exploration between paths; this limit also ends a unit that is stuck inside a single call --
+    a solver or library call that does not return): such a unit is reported inconclusive, never waited for"""
+    hard = lambda u: (3 * u.time_budget_s + 900) if u.time_budget_s else (2400 if tier == "quick" else 7200)
+    results = [None] * len(units)
+    pending = list(range(len(units)))
+    running = {}
+    while pending or running:
+        while pending and len(running) < jobs:
+            i = pending.pop(0)
+            a, b = mp.Pipe(duplex=False)
+            pr = mp.Process(target=_child, args=(i, b))
+            pr.start()
+            b.close()
+            running[i] = (pr, a, time.time())
+        done = []
+        for i, (pr, a, t_start) in running.items():
+            if a.poll(0):
+                try:
+                    results[i] = a.recv()
+                except (EOFError, OSError):
+                    results[i] = _empty_result(units[i], "harness error: worker ended without a result", "harness-error")
+                done.append(i)
+            elif not pr.is_alive():
+                results[i] = _empty_result(units[i], "harness error: worker died (exit code %r)" % pr.exitcode, "harness-error")
+                done.append(i)
+            elif time.time() - t_start > hard(units[i]):
+                pr.terminate()
+                results[i] = _empty_result(units[i], "hard wall-clock limit (%d s) reached: unit ended by the runner" % hard(units[i]), "budget")
+                done.append(i)
+        for i in done:
+            pr, a, _ = running.pop(i)
+            pr.join(5)
+            if pr.is_alive():
+                pr.kill()
+            a.close()
+        if not done:
+            time.sleep(0.05)
+    return results
 
 
 def _worker(i):
